@@ -16,10 +16,12 @@ use crate::wl;
 const SIGMA_FILTER: [&str; 8] = ["/", "+", "#", "$", "a", "\0", "é", "𝄞"];
 const SIGMA_NAME: [&str; 8] = ["/", "+", "#", "$", "S", "a", "\0", "é"];
 
-const PREFIXES_FILTER: [&str; 22] = [
+const PREFIXES_FILTER: [&str; 25] = [
     "", "$share/", "$share/g/", "$share/g", "$share", "$shar", "$sharee/", "$SHARE/g/", "$share/é/", "$share//", "$share/+/", "$share/#/", "$share/g+/", "/$share/g/",
     // look-alikes of the marker with one multi-byte character, and a seven-character first level
     "éshare/", "$éhare/", "$sharé/", "$sh𝄞re/", "$shareé/", "éééééé/", "$share\u{0}/", "abcdef/",
+    // share names / filters that look like the marker themselves
+    "$share/$share/", "$share/$share", "$share/g/$share/",
 ];
 const PREFIXES_NAME: [&str; 5] = ["", "$share/", "$SYS/", "$sys/", "$SYS"];
 
@@ -600,6 +602,18 @@ fn c18_packet_routes(c: &mut Ctx, s: &str) {
         ("publish", Fam::V5, RP::Publish { dup: false, qos: 1, retain: false, topic: b.clone(), pid: Some(2), props: Vec::new(), payload: b"p".to_vec() }, RefErr::TopicName(b.clone())),
         ("will", Fam::V3, connect(Fam::V3, RWill { qos: 1, retain: false, topic: b.clone(), payload: b"w".to_vec(), props: Vec::new() }), RefErr::TopicName(b.clone())),
         ("will", Fam::V5, connect(Fam::V5, RWill { qos: 0, retain: true, topic: b.clone(), payload: b"w".to_vec(), props: Vec::new() }), RefErr::TopicName(b.clone())),
+        (
+            "publish-with-alias",
+            Fam::V5,
+            RP::Publish { dup: true, qos: 2, retain: true, topic: b.clone(), pid: Some(77), props: vec![(0x23, PV::U16(3)), (0x02, PV::U32(60)), (0x26, PV::Pair(b"k".to_vec(), b"v".to_vec()))], payload: b"xyz".to_vec() },
+            RefErr::TopicName(b.clone()),
+        ),
+        (
+            "will-with-properties",
+            Fam::V5,
+            connect(Fam::V5, RWill { qos: 2, retain: true, topic: b.clone(), payload: b"w".to_vec(), props: vec![(0x18, PV::U32(5)), (0x03, PV::Str(b"ct".to_vec()))] }),
+            RefErr::TopicName(b.clone()),
+        ),
         (
             "response-topic",
             Fam::V5,
